@@ -2,7 +2,7 @@
    out of fuel, the same call with fuel f + k returns the same outcome and the same new state.  Needed by the
    closed-form theorems of C10 for the classes whose __next__ loops (PCollapse, PNoRepeats, PConcatenate step their
    operands with the fuel that is left).  Lemmas only. *)
-From Isobar Require Import Base.Prelude Pat.Val Pat.Syntax Pat.Step.
+From Isobar Require Import Base.Prelude Pat.Val Pat.Syntax Pat.Step Pat.ArgInd.
 From Coq Require Import String QArith.
 Open Scope Z_scope.
 
@@ -140,13 +140,66 @@ Section CombReset.
     - rewrite (reset_item_mono _ _ Ea) by discriminate. exact E.
   Qed.
 
+  (* the same for reset_value (tuples walked to any depth) *)
+  Lemma mapM_mono_gen (g g' : arg -> outcome arg) : forall l,
+    Forall (fun a => forall r, g a = r -> r <> OutOfFuel -> g' a = r) l ->
+    forall r, mapM g l = r -> r <> OutOfFuel -> mapM g' l = r.
+  Proof.
+    induction 1 as [|a l Ha Hl IH]; intros r E H; [exact E|]. cbn [mapM] in *.
+    specialize (Ha (g a) eq_refl).
+    destruct (g a) eqn:Ea.
+    - rewrite Ha by discriminate. cbn [obind] in *.
+      destruct (mapM g l) eqn:El.
+      + rewrite (IH _ eq_refl) by discriminate. exact E.
+      + rewrite (IH _ eq_refl) by discriminate. exact E.
+      + rewrite (IH _ eq_refl) by discriminate. exact E.
+      + subst r. cbn in H. congruence.
+      + rewrite (IH _ eq_refl) by discriminate. exact E.
+    - rewrite Ha by discriminate. exact E.
+    - rewrite Ha by discriminate. exact E.
+    - subst r. cbn in H. congruence.
+    - rewrite Ha by discriminate. exact E.
+  Qed.
+
+  Lemma reset_value_mono : forall a r, reset_value rp a = r -> r <> OutOfFuel -> reset_value rp' a = r.
+  Proof.
+    apply (arg_tuple_ind (fun a => forall r, reset_value rp a = r -> r <> OutOfFuel -> reset_value rp' a = r)).
+    - intros v r E _. exact E.
+    - intros p r E H. cbn [reset_value] in *. destruct (rp p) eqn:Ep; rewrite (Hr _ _ Ep); try exact E; try discriminate.
+      subst r. cbn in H. congruence.
+    - intros l r E _. exact E.
+    - intros kv r E _. exact E.
+    - intros l Hl r E H. rewrite reset_value_AT in *.
+      destruct (mapM (reset_value rp) l) eqn:El; try (rewrite (mapM_mono_gen _ _ l Hl _ El) by discriminate; exact E).
+      subst r. cbn in H. congruence.
+  Qed.
+
+  Lemma mapM_reset_value_mono : forall l r, mapM (reset_value rp) l = r -> r <> OutOfFuel -> mapM (reset_value rp') l = r.
+  Proof. intro l. apply mapM_mono_gen. apply Forall_forall. intros a _. apply reset_value_mono. Qed.
+
+  Lemma kwmapM_reset_value_mono : forall l r, kwmapM (reset_value rp) l = r -> r <> OutOfFuel -> kwmapM (reset_value rp') l = r.
+  Proof.
+    unfold kwmapM. induction l as [|[k a] l IH]; intros r E H; [exact E|]. cbn [mapM fst snd] in *.
+    destruct (reset_value rp a) eqn:Ea.
+    - rewrite (reset_value_mono _ _ Ea) by discriminate. cbn [obind omap] in *.
+      destruct (mapM _ l) eqn:El.
+      + rewrite (IH _ eq_refl) by discriminate. exact E.
+      + rewrite (IH _ eq_refl) by discriminate. exact E.
+      + rewrite (IH _ eq_refl) by discriminate. exact E.
+      + subst r. cbn in H. congruence.
+      + rewrite (IH _ eq_refl) by discriminate. exact E.
+    - rewrite (reset_value_mono _ _ Ea) by discriminate. exact E.
+    - rewrite (reset_value_mono _ _ Ea) by discriminate. exact E.
+    - subst r. cbn in H. congruence.
+    - rewrite (reset_value_mono _ _ Ea) by discriminate. exact E.
+  Qed.
+
   Lemma reset_field_mono a r : reset_field rp a = r -> r <> OutOfFuel -> reset_field rp' a = r.
   Proof.
-    destruct a; cbn [reset_field]; intros E H; try exact E.
-    - destruct (rp p) eqn:Ep; rewrite (Hr _ _ Ep); try exact E; try discriminate. subst r. cbn in H. congruence.
-    - destruct (mapM (reset_item rp) l) eqn:El; try (rewrite (mapM_reset_item_mono _ _ El) by discriminate; exact E).
+    destruct a; unfold reset_field; intros E H; try (apply reset_value_mono; assumption).
+    - destruct (mapM (reset_value rp) l) eqn:El; try (rewrite (mapM_reset_value_mono _ _ El) by discriminate; exact E).
       subst r. cbn in H. congruence.
-    - destruct (kwmapM (reset_item rp) kv) eqn:El; try (rewrite (kwmapM_reset_item_mono _ _ El) by discriminate; exact E).
+    - destruct (kwmapM (reset_value rp) kv) eqn:El; try (rewrite (kwmapM_reset_value_mono _ _ El) by discriminate; exact E).
       subst r. cbn in H. congruence.
   Qed.
 End CombReset.
@@ -241,26 +294,28 @@ Section Unfold.
               end
           | _ => (oa, PAnd a' b)
           end
-      | PArrayIndex list index =>
+      | PArrayIndex list index exhausted =>
           (* list = Pattern.value(self.list); index = Pattern.value(self.index) *)
+          if exhausted then (Stop, p) else                       (* if self.exhausted: raise StopIteration *)
+          let '(o, list1, index1) :=
           match list with
           | AL l =>
               let '(oi, index') := value f index in
               match oi with
-              | Yield VNone => (Yield VNone, PArrayIndex list index')
+              | Yield VNone => (Yield VNone, list, index')
               | Yield vi =>
                   match py_int vi with
                   | Yield (VInt i) =>
                       match py_index l i with
-                      | None => (Raise IndexError, PArrayIndex list index')
+                      | None => (Raise IndexError, list, index')
                       | Some a =>
                           let '(o, a') := value f a in      (* return Pattern.value(list[index]) *)
-                          (o, PArrayIndex (AL (update_nth (py_index_pos l i) a' l)) index')
+                          (o, (AL (update_nth (py_index_pos l i) a' l)), index')
                       end
-                  | Yield _ => (Inexact, PArrayIndex list index')
-                  | o => (o, PArrayIndex list index')
+                  | Yield _ => (Inexact, list, index')
+                  | o => (o, list, index')
                   end
-              | _ => (oi, PArrayIndex list index')
+              | _ => (oi, list, index')
               end
           | _ =>
               let '(ol, list') := value f list in
@@ -268,27 +323,28 @@ Section Unfold.
               | Yield vl =>
                   let '(oi, index') := value f index in
                   match oi with
-                  | Yield VNone => (Yield VNone, PArrayIndex list' index')
+                  | Yield VNone => (Yield VNone, list', index')
                   | Yield vi =>
                       match py_int vi with
                       | Yield (VInt i) =>
                           match vl with
                           | VList l | VTup l =>
                               match py_index l i with
-                              | None => (Raise IndexError, PArrayIndex list' index')
-                              | Some v => (Yield v, PArrayIndex list' index')
+                              | None => (Raise IndexError, list', index')
+                              | Some v => (Yield v, list', index')
                               end
-                          | VStr _ | VDict _ => (Inexact, PArrayIndex list' index')
-                          | _ => (Raise TypeError, PArrayIndex list' index')
+                          | VStr _ | VDict _ => (Inexact, list', index')
+                          | _ => (Raise TypeError, list', index')
                           end
-                      | Yield _ => (Inexact, PArrayIndex list' index')
-                      | o => (o, PArrayIndex list' index')
+                      | Yield _ => (Inexact, list', index')
+                      | o => (o, list', index')
                       end
-                  | _ => (oi, PArrayIndex list' index')
+                  | _ => (oi, list', index')
                   end
-              | _ => (ol, PArrayIndex list' index)
+              | _ => (ol, list', index)
               end
-          end
+          end in
+          (o, PArrayIndex list1 index1 (is_stop o))             (* except StopIteration: self.exhausted = True; raise *)
       | PDict dict =>
           (* rv = dict([(k, Pattern.value(vdict[k])) for k in vdict]) *)
           match dict with
@@ -693,7 +749,7 @@ Section Unfold.
       | PInt input => fld input (fun x => Yield (PInt x))
       | PBinOp o a b => fld a (fun a' => fld b (fun b' => Yield (PBinOp o a' b')))
       | PAnd a b => fld a (fun a' => fld b (fun b' => Yield (PAnd a' b')))
-      | PArrayIndex list index => fld list (fun l' => fld index (fun i' => Yield (PArrayIndex l' i')))
+      | PArrayIndex list index _ => fld list (fun l' => fld index (fun i' => Yield (PArrayIndex l' i' false)))   (* super().reset(); self.exhausted = False *)
       | PDict dict => fld dict (fun d' => Yield (PDict d'))
       | PDictKey dict key => fld dict (fun d' => fld key (fun k' => Yield (PDictKey d' k')))
       | PSequence sequence repeats _ _ =>                                                  (* super().reset(); rcount = 0; pos = 0 *)
@@ -751,13 +807,14 @@ Section Unfold.
           fld source (fun s1 => let '(o, s2) := value f s1 in obind o (fun v => Yield (PDiff s2 v)))
       | PSkipIf pattern skip => fld pattern (fun p' => fld skip (fun s' => Yield (PSkipIf p' s')))
       | PMap input operator args kwargs =>
-          (* Pattern.reset: input (a Pattern), kwargs (a dict); self.args is a tuple and is not walked.
-             PMap.reset then resets the Pattern items of args and, once more, of kwargs. *)
+          (* Pattern.reset walks vars(self) in creation order: input (a Pattern), args (a TUPLE: its Patterns, also inside
+             nested tuples), kwargs (a dict).  PMap.reset then resets the Pattern items of args and of kwargs once more. *)
           fld input (fun i' =>
-          obind (kwmapM (reset_item (reset f)) kwargs) (fun kw1 =>
-          obind (mapM (reset_item (reset f)) args) (fun args' =>
+          obind (mapM (reset_value (reset f)) args) (fun args1 =>
+          obind (kwmapM (reset_value (reset f)) kwargs) (fun kw1 =>
+          obind (mapM (reset_item (reset f)) args1) (fun args2 =>
           obind (kwmapM (reset_item (reset f)) kw1) (fun kw2 =>
-          Yield (PMap i' operator args' kw2)))))
+          Yield (PMap i' operator args2 kw2))))))
       | PWrap pattern mn mx => fld pattern (fun x => Yield (PWrap x mn mx))
       | PIndexOf list item => fld list (fun l' => fld item (fun i' => Yield (PIndexOf l' i')))
       end
@@ -878,6 +935,12 @@ Section Mono.
         | reset_field (Step.reset binop LMAX f) ?a =>
             destruct (reset_field (reset f) a) as [?x| |?e| |] eqn:E;
             try rewrite (reset_field_mono (reset f) (reset (S f)) IHr _ _ E) by discriminate
+        | mapM (reset_value (Step.reset binop LMAX f)) ?l =>
+            destruct (mapM (reset_value (reset f)) l) as [?x| |?e| |] eqn:E;
+            try rewrite (mapM_reset_value_mono (reset f) (reset (S f)) IHr _ _ E) by discriminate
+        | kwmapM (reset_value (Step.reset binop LMAX f)) ?l =>
+            destruct (kwmapM (reset_value (reset f)) l) as [?x| |?e| |] eqn:E;
+            try rewrite (kwmapM_reset_value_mono (reset f) (reset (S f)) IHr _ _ E) by discriminate
         | mapM (reset_item (Step.reset binop LMAX f)) ?l =>
             destruct (mapM (reset_item (reset f)) l) as [?x| |?e| |] eqn:E;
             try rewrite (mapM_reset_item_mono (reset f) (reset (S f)) IHr _ _ E) by discriminate
